@@ -120,9 +120,15 @@ def check_case(case):
     run = oc.Run(case)
     err = None
     try:
-        for b in case.get("batches", []):
+        for j, b in enumerate(case.get("batches", [])):
             if not run.iterate(b):
                 break
+            if case.get("mid_refine") is not None and j == case["mid_refine"] and run.glog():
+                # a local refinement in the MIDDLE of the global search: the search then continues; the decision rule is
+                # about the values the objective took at the trial points (the log), which a refinement does not change
+                import contextlib
+                with contextlib.redirect_stdout(run.out):
+                    run.solver.DoLocalRefinement(-1)
         if case.get("solve", True):
             run.solve()
     except BaseException as e:                # noqa - an escaping exception is itself a finding
@@ -176,6 +182,8 @@ def gen(r):
             tot += b
         case["batches"] = bs
         case["solve"] = r.random() < 0.7
+        if bs and r.random() < 0.2:
+            case["mid_refine"] = r.randrange(len(bs))
     return case
 
 
